@@ -52,8 +52,9 @@ ASSUMPTIONS = [
     "packages avoid every shape of the C05 loader findings (wildcards only from plain modules, plain __all__ lists), so "
     "that C04 does not depend on the pending C05 fixes",
     "scope classes may inherit from each other, but no attribute access goes through inheritance; attribute segments "
-    "after a call / subscript root have no static binding (expected unchanged or relative to the root's path); no names "
-    "bound inside function bodies, no PEP 563 modules",
+    "after a call / subscript root have no static binding (expected unchanged or relative to the root's path); inside "
+    "function bodies only `__init__` methods with leading local imports and `self.x: N = N` statements (what the "
+    "visitor stores); no PEP 563 modules",
     "the scope model in vp/gen/c04_sites.py (Python's rule next to a model of Object.resolve) only labels sites for "
     "steering / known-finding attribution; every verdict compares Griffe with CPython",
 ]
